@@ -56,6 +56,43 @@ func init() {
 					}
 				})
 			}
+			// the builtin min/max are ordered comparisons too
+			for _, fn := range c.P.Funcs {
+				name := c.P.FuncName(fn)
+				if isSnaHelper(name) {
+					continue
+				}
+				forEachInstr(fn, func(in ssa.Instruction) {
+					call, ok := in.(*ssa.Call)
+					if !ok {
+						return
+					}
+					b, ok := call.Call.Value.(*ssa.Builtin)
+					if !ok || (b.Name() != "min" && b.Name() != "max") {
+						return
+					}
+					for _, a := range call.Call.Args {
+						if e.kind[a] == serSerial {
+							c.Fail(ks.key("raw-compare@"+name), c.Pos(in), fmt.Sprintf("builtin %s() applied to a sequence number (%s): numeric order is wrong across the wrap", b.Name(), shortValue(c.P, a)))
+							return
+						}
+					}
+				})
+			}
+			// helper functions max32/min32/min16 on serials
+			for _, hn := range []string{"max32", "min32", "min16"} {
+				h := c.P.Fn(hn)
+				if h == nil {
+					continue
+				}
+				for _, cs := range c.P.CallSitesOf(h) {
+					for _, a := range cs.Instr.Common().Args {
+						if e.kind[a] == serSerial {
+							c.Fail(ks.key("raw-compare@"+c.P.FuncName(cs.Fn)), c.Pos(cs.Instr), hn+"() applied to a sequence number: numeric order is wrong across the wrap")
+						}
+					}
+				}
+			}
 			// every call of an sna helper is an obligation discharged by R2
 			for _, fn := range c.P.Funcs {
 				forEachInstr(fn, func(in ssa.Instruction) {
